@@ -1,4 +1,232 @@
 import Cpl.Model.Rules
+import Cpl.Spec.Ring
+import Cpl.Properties.C01
+import Cpl.Properties.C12
+import Cpl.Lemmas.Async
+import Cpl.Lemmas.Hopfield
+
+/-!
+# C20 — Hopfield network: Hebbian weights and energy descent
+
+For all odd network sizes `N = 2r + 1 ≥ 3` (`r = N / 2 ≥ 1`), all pattern sets, all bipolar initial
+states, all evolution lengths and all update orders (any permutation of the cells; also with
+re-shuffling after every step, for every shuffle outcome).
+
+* `localField W s c` is `Σ_{i ≠ c} W[i][c] · s[i]` (the weighted input from all other cells),
+* `quadForm W s` is `s'Ws = Σ_i Σ_j W[i][j] · s[i] · s[j]`; the energy is `-1/2` of it, so
+  "`quadForm` never decreases" is "the energy never increases",
+* `Bipolar s`: every entry is `+1` or `-1`.
+-/
+
 namespace Cpl.C20
-theorem placeholder : True := trivial
+open Cpl Cpl.Spec
+
+/-- **Hebbian weights.** After `train(P)` the weight matrix is `N × N`, its entry `(i, j)` is
+    `Σ_{p ∈ P} p[i]·p[j]` off the diagonal and `0` on it; hence it is symmetric with zero diagonal. -/
+theorem train_spec (P : List (List Int)) (N : Nat) (hne : P ≠ []) (hlen : ∀ p ∈ P, p.length = N) :
+    (hopfieldTrain P).length = N ∧ (∀ row ∈ hopfieldTrain P, row.length = N) ∧
+    (∀ i j, i < N → j < N →
+      ((hopfieldTrain P)[i]!)[j]! = if i = j then (0 : Int) else (P.map fun p => p[i]! * p[j]!).sum) ∧
+    (∀ i j, i < N → j < N → ((hopfieldTrain P)[i]!)[j]! = ((hopfieldTrain P)[j]!)[i]!) ∧
+    (∀ i, i < N → ((hopfieldTrain P)[i]!)[i]! = 0) := by
+  have hN : P.head?.map List.length = some N := by
+    cases P with
+    | nil => exact absurd rfl hne
+    | cons p _ => simp [hlen p (List.mem_cons_self ..)]
+  have hent := hopfieldTrain_entry P N hN
+  refine ⟨?_, ?_, hent, ?_, ?_⟩
+  · rw [hopfieldTrain_eq P N hN]; simp
+  · rw [hopfieldTrain_eq P N hN]
+    intro row hrow
+    obtain ⟨i, _, rfl⟩ := List.mem_map.1 hrow
+    simp
+  · intro i j hi hj
+    rw [hent i j hi hj, hent j i hj hi]
+    by_cases h : i = j
+    · simp [h]
+    · have h' : ¬ j = i := fun e => h e.symm
+      simp only [h, h', if_false]
+      congr 1
+      apply List.map_congr_left
+      intro p _
+      exact Int.mul_comm _ _
+  · intro i hi
+    rw [hent i i hi hi]; simp
+
+/-- **The rule is the sign of the weighted input from all other cells.** With `2r + 1 = N` the
+    rule's index arithmetic (`c - r + j`, negative values wrapping as NumPy does, for the left half of
+    the window; `(c + j + 1) mod N` for the right half) visits every cell other than `c` exactly once,
+    each paired with that cell's state: the result is `+1` iff `Σ_{i < N, i ≠ c} W[i][c]·s[i] ≥ 0`. -/
+theorem hopfield_field (W : List (List Int)) (s : List Int) (r c : Nat) (hN : s.length = 2 * r + 1)
+    (hW : W.length = 2 * r + 1) (hc : c < 2 * r + 1) :
+    hopfieldRule W r (window s r c) c
+      = if (0 : Int) ≤ (((List.range (2 * r + 1)).filter (· ≠ c)).map fun i => (W[i]!)[c]! * s[i]!).sum
+        then 1 else -1 := by
+  rw [hopfieldRule_eq W s r c hN hW hc]
+  unfold localField
+  rw [hN]
+
+/-- **One evolution step updates one cell to the sign of its field.** With the net's rule wrapped in
+    the asynchronous rule (fixed order, fresh counter), a step replaces exactly the scheduled cell
+    `c = order[curr]` by `+1` if its weighted input from all other cells is non-negative and by `-1`
+    otherwise; every other cell keeps its state. -/
+theorem hopfield_step (W : List (List Int)) (s : List Int) (r t : Nat) (a : AsyncSt Nat) (c : Nat)
+    (hN : s.length = 2 * r + 1) (hW : W.length = 2 * r + 1) (hnd : a.order.Nodup)
+    (hlt : ∀ x ∈ a.order, x < s.length) (hc : a.order[a.curr]? = some c) (hna : a.numApplied = 0)
+    (hrand : a.randomize = false) :
+    Spec.step (asyncRule1 (hopfieldRule1 W r)) s r t (a, ())
+      = (s.set c (if 0 ≤ localField W s c then 1 else -1),
+         ({ a with curr := (a.curr + 1) % a.order.length }, ())) := by
+  rw [C12.async_sweep (hopfieldRule1 W r) s r t a () c (by omega) hnd hlt hc hna hrand]
+  have hcl : c < 2 * r + 1 := by rw [← hN]; exact hlt c (List.mem_of_getElem? hc)
+  have : (hopfieldRule1 W r () (window s r c) c t).1 = if 0 ≤ localField W s c then 1 else -1 :=
+    hopfieldRule_eq W s r c hN hW hcl
+  rw [this]
+
+/-- **Energy descent, one update.** For a symmetric zero-diagonal integer weight matrix, replacing the
+    single cell `c` (currently `±1`; the other cells may hold any integers) by the sign of its field
+    does not decrease `s'Ws` — the energy `-1/2 s'Ws` does not increase. -/
+theorem energy_descent (W : List (List Int)) (s : List Int) (c : Nat) (hc : c < s.length)
+    (hsym : ∀ i j, i < s.length → j < s.length → (W[i]!)[j]! = (W[j]!)[i]!)
+    (hdiag : ∀ i, i < s.length → (W[i]!)[i]! = 0) (hs : s[c]! = 1 ∨ s[c]! = -1) :
+    quadForm W s ≤ quadForm W (s.set c (if 0 ≤ localField W s c then 1 else -1)) :=
+  quadForm_descent W s c hc hsym hdiag hs
+
+/-- **Energy descent along the evolution.** Evolving a bipolar state of an odd-sized net
+    (`N = 2r + 1 ≥ 3`) for `T` steps with the net's asynchronous rule — the update order being any
+    permutation of the cells, optionally re-shuffled after every step with arbitrary outcomes — yields
+    `T` bipolar rows starting with the initial state, and `s'Ws` of any earlier row is at most that of
+    any later row: the energy never increases. -/
+theorem energy_descent_evolve (W : List (List Int)) (r N T : Nat) (init : List Int) (a : AsyncSt Nat)
+    (hr : 1 ≤ r) (hN : N = 2 * r + 1) (hW : W.length = N)
+    (hsym : ∀ i j, i < N → j < N → (W[i]!)[j]! = (W[j]!)[i]!) (hdiag : ∀ i, i < N → (W[i]!)[i]! = 0)
+    (hT : 1 ≤ T) (hinit : init.length = N) (hb : Bipolar init) (ho : a.order.Perm (List.range N))
+    (hsh : a.randomize = true → ∀ o ∈ a.shuffles, o.Perm (List.range N)) (hna : a.numApplied = 0)
+    (hc : a.curr < a.order.length) :
+    ∃ (rows : List (List Int)) (fin : AsyncSt Nat × Unit),
+      evolveFixed [init] T (asyncRule1 (hopfieldRule1 W r)) r .plain (a, ()) = .ok (rows, fin) ∧
+      rows.length = T ∧ rows.head? = some init ∧
+      (∀ row ∈ rows, Bipolar row ∧ row.length = N) ∧
+      List.Pairwise (fun x y => quadForm W x ≤ quadForm W y) rows := by
+  have hne : a.order ≠ [] := List.ne_nil_of_length_pos (by omega)
+  have hrun := run_async (hopfieldRule1 W r) r N (List.range N) List.nodup_range
+    (fun x hx => List.mem_range.1 hx) (by omega) (T - 1) 1 init a () hinit ho hsh hna hc
+  have hsched : ∀ t, (fun t' => a.cellAt (t' - 1)) t < N := fun t =>
+    List.mem_range.1 (cellAt_mem a (List.range N) ho hsh hne (t - 1))
+  obtain ⟨e1, e2⟩ := seqRun_hopfield_energy W r N hN hW hsym hdiag _ hsched (T - 1) 1 init () hinit hb
+  refine ⟨init :: (seqRun (hopfieldRule1 W r) r (fun t' => a.cellAt (t' - 1)) (T - 1) 1 init ()).1,
+    (a.after (T - 1), (seqRun (hopfieldRule1 W r) r (fun t' => a.cellAt (t' - 1)) (T - 1) 1 init ()).2),
+    ?_, ?_, rfl, ?_, e1⟩
+  · rw [C01.evolveFixed_plain_eq_spec [init] init rfl T hT _ r hr (by omega), hrun]
+    rfl
+  · simp only [List.length_cons, seqRun_length]; omega
+  · intro row hrow
+    rcases List.mem_cons.1 hrow with rfl | hrow
+    · exact ⟨hb, hinit⟩
+    · exact e2 row hrow
+
+/-- The same for a trained net: the weights produced by `train(P)` satisfy the hypotheses. -/
+theorem energy_descent_trained (P : List (List Int)) (r N T : Nat) (init : List Int) (a : AsyncSt Nat)
+    (hr : 1 ≤ r) (hN : N = 2 * r + 1) (hne : P ≠ []) (hlen : ∀ p ∈ P, p.length = N)
+    (hT : 1 ≤ T) (hinit : init.length = N) (hb : Bipolar init) (ho : a.order.Perm (List.range N))
+    (hsh : a.randomize = true → ∀ o ∈ a.shuffles, o.Perm (List.range N)) (hna : a.numApplied = 0)
+    (hc : a.curr < a.order.length) :
+    ∃ (rows : List (List Int)) (fin : AsyncSt Nat × Unit),
+      evolveFixed [init] T (asyncRule1 (hopfieldRule1 (hopfieldTrain P) r)) r .plain (a, ()) = .ok (rows, fin) ∧
+      rows.length = T ∧ rows.head? = some init ∧
+      (∀ row ∈ rows, Bipolar row ∧ row.length = N) ∧
+      List.Pairwise (fun x y => quadForm (hopfieldTrain P) x ≤ quadForm (hopfieldTrain P) y) rows := by
+  obtain ⟨h1, _, _, h4, h5⟩ := train_spec P N hne hlen
+  exact energy_descent_evolve (hopfieldTrain P) r N T init a hr hN h1 h4 h5 hT hinit hb ho hsh hna hc
+
+/-- **Field of a single stored pattern.** With the weights of one bipolar pattern `p` of length
+    `N = 2r + 1`, the weighted input of cell `c` from the other cells is `(N - 1)·p[c]` in state `p`
+    and `(N - 1)·(-p[c])` in state `-p`. -/
+theorem single_pattern_field (p : List Int) (r c : Nat) (hN : p.length = 2 * r + 1) (hb : Bipolar p)
+    (hc : c < 2 * r + 1) :
+    localField (hopfieldTrain [p]) p c = (2 * (r : Int)) * p[c]! ∧
+    localField (hopfieldTrain [p]) (p.map (fun x => -x)) c = (2 * (r : Int)) * -(p[c]!) := by
+  refine ⟨localField_aligned _ p r c hN hc (single_aligned p r c hN hb hc), ?_⟩
+  rw [localField_aligned _ _ r c (by simpa using hN) hc (single_aligned_neg p r c hN hb hc), neg_getElem!]
+
+/-- **A single stored pattern and its negation are fixed points (cell level).** With the weights of
+    one bipolar pattern `p` of odd length `N = 2r + 1 ≥ 3`, the rule applied to any cell of `p` returns
+    that cell's value, and applied to any cell of `-p` returns that cell's value. -/
+theorem single_pattern_fixed (p : List Int) (r c : Nat) (hr : 1 ≤ r) (hN : p.length = 2 * r + 1)
+    (hb : Bipolar p) (hc : c < 2 * r + 1) :
+    hopfieldRule (hopfieldTrain [p]) r (window p r c) c = p[c]! ∧
+    hopfieldRule (hopfieldTrain [p]) r (window (p.map (fun x => -x)) r c) c = (p.map (fun x => -x))[c]! :=
+  ⟨single_pattern_cell p r c hr hN hb hc, single_pattern_cell_neg p r c hr hN hb hc⟩
+
+/-- **… and the whole evolution from `p` or from `-p` is constant**, for every update order that is a
+    permutation of the cells (re-shuffled or not) and every number of steps. -/
+theorem single_pattern_evolve (p : List Int) (r T : Nat) (a : AsyncSt Nat) (hr : 1 ≤ r)
+    (hN : p.length = 2 * r + 1) (hb : Bipolar p) (hT : 1 ≤ T)
+    (ho : a.order.Perm (List.range (2 * r + 1)))
+    (hsh : a.randomize = true → ∀ o ∈ a.shuffles, o.Perm (List.range (2 * r + 1)))
+    (hna : a.numApplied = 0) (hc : a.curr < a.order.length) (s0 : List Int)
+    (hs0 : s0 = p ∨ s0 = p.map (fun x => -x)) :
+    ∃ fin : AsyncSt Nat × Unit,
+      evolveFixed [s0] T (asyncRule1 (hopfieldRule1 (hopfieldTrain [p]) r)) r .plain (a, ())
+        = .ok (List.replicate T s0, fin) := by
+  have hne : a.order ≠ [] := List.ne_nil_of_length_pos (by omega)
+  have hl0 : s0.length = 2 * r + 1 := by
+    rcases hs0 with h | h
+    · rw [h]; exact hN
+    · rw [h]; simpa using hN
+  have hrun := run_async (hopfieldRule1 (hopfieldTrain [p]) r) r (2 * r + 1) (List.range (2 * r + 1))
+    List.nodup_range (fun x hx => List.mem_range.1 hx) (by omega) (T - 1) 1 s0 a () hl0 ho hsh hna hc
+  have hsched : ∀ t, (fun t' => a.cellAt (t' - 1)) t < s0.length := fun t => by
+    rw [hl0]; exact List.mem_range.1 (cellAt_mem a _ ho hsh hne (t - 1))
+  have hfix : ∀ c t (u : Unit), c < s0.length →
+      (hopfieldRule1 (hopfieldTrain [p]) r u (window s0 r c) c t).1 = s0[c]! := by
+    intro c t u hcl
+    rw [hl0] at hcl
+    rcases hs0 with h | h
+    · rw [h]; exact (single_pattern_fixed p r c hr hN hb hcl).1
+    · rw [h]; exact (single_pattern_fixed p r c hr hN hb hcl).2
+  have hconst := seqRun_fixed (hopfieldRule1 (hopfieldTrain [p]) r) r _ s0 hsched hfix (T - 1) 1 ()
+  refine ⟨(a.after (T - 1),
+    (seqRun (hopfieldRule1 (hopfieldTrain [p]) r) r (fun t' => a.cellAt (t' - 1)) (T - 1) 1 s0 ()).2), ?_⟩
+  rw [C01.evolveFixed_plain_eq_spec [s0] s0 rfl T hT _ r hr (by omega), hrun, hconst]
+  have : T = (T - 1) + 1 := by omega
+  conv => rhs; rw [this, List.replicate_succ]
+  rfl
+
+/-! ## Concrete instances (hypotheses satisfiable) and guard witnesses -/
+
+/-- Two patterns on 3 cells: the weights are the sum of the outer products with the diagonal zeroed. -/
+example : hopfieldTrain [[1, -1, 1], [1, 1, -1]] = [[0, 0, 0], [0, 0, -2], [0, -2, 0]] := by decide
+
+/-- `N = 5`, `r = 2`, cell 0: the left half of the window reads cells 3, 4 (negative indices wrap),
+    the right half cells 1, 2. -/
+example : hopfieldRule [[0, 1, 2, 3, 4], [1, 0, 5, 6, 7], [2, 5, 0, 8, 9], [3, 6, 8, 0, 1], [4, 7, 9, 1, 0]] 2
+    (window [1, -1, -1, 1, -1] 2 0) 0 = -1
+    ∧ localField [[0, 1, 2, 3, 4], [1, 0, 5, 6, 7], [2, 5, 0, 8, 9], [3, 6, 8, 0, 1], [4, 7, 9, 1, 0]]
+        [1, -1, -1, 1, -1] 0 = -4 := by decide
+
+/-- The hypotheses of `energy_descent_trained` hold for a 3-cell net with order `[2, 0, 1]`. -/
+example : ∃ rows fin,
+    evolveFixed [[1, 1, 1]] 5 (asyncRule1 (hopfieldRule1 (hopfieldTrain [[1, -1, 1]]) 1)) 1 .plain
+      ({ order := [2, 0, 1] }, ()) = .ok (rows, fin) ∧ rows.length = 5 ∧ rows.head? = some [1, 1, 1] ∧
+    (∀ row ∈ rows, Bipolar row ∧ row.length = 3) ∧
+    List.Pairwise (fun x y => quadForm (hopfieldTrain [[1, -1, 1]]) x ≤ quadForm (hopfieldTrain [[1, -1, 1]]) y) rows :=
+  energy_descent_trained [[1, -1, 1]] 1 3 5 [1, 1, 1] { order := [2, 0, 1] } (by decide) rfl (by decide)
+    (by decide) (by decide) rfl (by decide) (by decide) (by decide) rfl (by decide)
+
+/-- **Even size breaks the field formula** (`N = 4`, `r = 2`, window of 5): the cell opposite to `c` is
+    counted twice, so the rule answers `+1` although the field from the other cells is `-1`. -/
+example : hopfieldRule [[0, -1, 1, -1], [-1, 0, 0, 0], [1, 0, 0, 0], [-1, 0, 0, 0]] 2
+      (window [1, 1, 1, 1] 2 0) 0 = 1
+    ∧ localField [[0, -1, 1, -1], [-1, 0, 0, 0], [1, 0, 0, 0], [-1, 0, 0, 0]] [1, 1, 1, 1] 0 = -1 := by decide
+
+/-- **A non-bipolar cell can lose `s'Ws`** (so `s[c] = ±1` is needed in `energy_descent`). -/
+example : ¬ quadForm [[0, 1, 0], [1, 0, 0], [0, 0, 0]] [5, 1, 1]
+    ≤ quadForm [[0, 1, 0], [1, 0, 0], [0, 0, 0]]
+        ([5, 1, 1].set 0 (if 0 ≤ localField [[0, 1, 0], [1, 0, 0], [0, 0, 0]] [5, 1, 1] 0 then 1 else -1)) := by
+  decide
+
+/-- **`N = 1` is not a fixed point for `-1`** (`r = 0`: no other cells, field `0`, update to `+1`). -/
+example : hopfieldRule (hopfieldTrain [[-1]]) 0 (window [-1] 0 0) 0 = 1 := by decide
+
 end Cpl.C20
